@@ -43,7 +43,7 @@ fn main() {
                     let sized = d.symbols.format(d, fd, &mut |res: &mut String, _decl, name: &str, bigint: &util::BigInt| {
                         res.push_str(&format!("{}={:x}:{};", name, bigint, bigint.size.map_or("-".to_string(), |s| s.to_string())));
                     });
-                    // sixth field: non-integer symbols (booleans, strings) by declaration index: name=bool:0|1 / name=str:hex:encoding
+                    // sixth field: non-integer symbols (booleans, strings, void, failed) by declaration index: name=bool:0|1 / name=str:hex:encoding / name=void:- / name=failed:-
                     let mut other = String::new();
                     for i in 0..fd.symbols.len() {
                         let sym = fd.symbols.get(util::ItemRef::new(i));
@@ -51,6 +51,8 @@ fn main() {
                         match &sym.value {
                             expr::Value::Bool(b) => other.push_str(&format!("{}=bool:{};", decl.name, if *b { 1 } else { 0 })),
                             expr::Value::String(st) => other.push_str(&format!("{}=str:{}:{};", decl.name, hex(&st.utf8_contents), st.encoding)),
+                            expr::Value::Void => other.push_str(&format!("{}=void:-;", decl.name)),
+                            expr::Value::FailedConstraint(_) => other.push_str(&format!("{}=failed:-;", decl.name)),
                             _ => {}
                         }
                     }
